@@ -57,6 +57,37 @@ CHECKS = {
          "one acknowledge per non-aborted access, none outside a cycle, byte reference memory with allowed sets (bytes selected by an aborted write are undefined, everything else untouched), no hang after aborts, final memory.",
     note=SIMNOTE + " At a write strobe that finds no valid data the stub applies the data/enable wires like the real crossbar does.",
     technique=PBT + "a byte-accurate reference memory with per-byte allowed sets (model-based oracle)"),
+ "C09": dict(category="exploration", design_ref="DESIGN.md section 3, C09 and 8",
+    text="LiteDRAMAXI2Native (132 devices: data width, buffer depths 1-16, base addresses, id widths, with/without read-modify-write) between a conforming AXI4 master with independent stall schedules on all five channels "
+         "(FIXED/INCR/WRAP, W leading or lagging AW, partial strobes, reads concurrent with writes) and the realistic native slave: one B per burst with the right ID and never before the data reached the memory, R beat counts/IDs/LAST, "
+         "per-byte allowed sets for concurrent reads, final memory, RMW writes always full-enable, no lost strobe, no hang.",
+    note=SIMNOTE + " Full-width transfer size only (the only size the bridge documents); AXI valid/payload stability is generated, not assumed of the bridge.",
+    technique=PBT + "AXI protocol rules and a byte-accurate reference memory with allowed sets (model-based oracle)"),
+ "C12": dict(category="exploration", design_ref="DESIGN.md section 3, C12",
+    text="LiteDRAMDMAReader / LiteDRAMDMAWriter on native ports (realistic slave with unconditional read strobes) and AXI ports (own AXI memory slave), FIFO depths 1-32, buffered or not, consumer stalled for hundreds of cycles with "
+         "reads in flight: output stream = memory at the addresses in order with last marks, reads issued minus words delivered never exceeds the FIFO depth, no strobe ever lost, writer log = input pairs exactly once in order; plus writer->reader round trips on the whole core.",
+    note=SIMNOTE + " CSR mode of the DMAs is out of scope.",
+    technique=PBT + "stream equality with a reference memory and an outstanding-reads invariant"),
+ "C13": dict(category="exploration", design_ref="DESIGN.md section 3, C13 and 8",
+    text="LiteDRAMFIFO (bypass on: ratios 1-8; bypass off) and _LiteDRAMFIFO, depths 2-64 words, both ports on one acceptance-ordered realistic slave; streams 3-20x the depth with schedules that fill, drain and hover at the bypass threshold: "
+         "output stream = input stream word by word, level <= depth, no write to an address holding an unread word, addresses inside the region, no lost strobe, no hang. Two genuine defects of the bypass FSM (ratio > 1) are known findings.",
+    note=SIMNOTE + " Known-finding signatures (FSM state at the first deviation) only qualify the key, never the verdict.",
+    technique=PBT + "stream equality and occupancy tracking from port traffic (model-based oracle)"),
+ "C17": dict(category="exploration", design_ref="DESIGN.md section 3, C17 and 8",
+    text="Init sequences for PhySettings obtained by elaborating 35 real PHY variants over dense clock ranges x TimingSettings of every library module x electrical/RDIMM/clam-shell options: mode registers decoded with independent JEDEC decoders "
+         "(burst length, CL, CWL equal the controller's, write recovery covers datasheet tWR and stays within the controller's write-to-precharge budget, no field overlap/overflow), C and Python headers parsed back and compared.",
+    note="Pure functions, no simulation. Trusts lib/jedec_mr.py's transcription of the JEDEC mode-register tables and the (ck, ns) tables of modules.py. Clocks at which no encodable write recovery covers tWR (beyond the speed bins) are counted, not judged.",
+    technique="property-based testing: grid + Hypothesis over PHY/module/clock/options against independent JEDEC mode-register decoders and exact-rational datasheet arithmetic"),
+ "C19": dict(category="exploration", design_ref="DESIGN.md section 3, C19 and 8",
+    text="SDRAMPHYModel (SDR..DDR4 settings, library column counts incl. 2048, data widths 8-64, byte/word write enable, init images in both mappings) against the reference DRAM in lock-step, cycle by cycle on every phase: "
+         "legal traces from a constructive scheduler (bank state + generated timing set, masks, auto-precharge, back-to-back bursts) and from the real controller's command stream; final read-back sweep; init image layout.",
+    note=SIMNOTE + " Rows reduced to 4-32 (one simulator signal per memory word); tRCD/tRP/tRRD >= nphases clocks so that one bank never gets two commands in one controller cycle; multi-rank is documented as unsupported by the model.",
+    technique=PBT + "an independent DRAM model in lock-step (differential oracle)"),
+ "C20": dict(category="exploration", design_ref="DESIGN.md section 3, C20 and 8",
+    text="LPDDR4 DFIPhaseAdapter x8 + CommandsPipeline (basic/extended), LPDDR4PHY core, double-rate PHY, pad-level simulation PHYs, LPDDR5 adapter and PHY: random commands of every type on every phase with spacings from overlapping to far apart; "
+         "the CS/CA stream is decoded slot by slot with independent JESD209-4/-5 decoders and must equal the non-overlapped DFI commands at slot latency + phase, operands bit for bit; every operand bit must toggle in every shard; MPC op codes exhaustively.",
+    note=SIMNOTE + " lib/jedec_ca.py is a transcription of the JEDEC truth tables from memory of the standards; single rank; vendor SERDES PHYs are not simulated.",
+    technique=PBT + "independent JEDEC command decoders (round trip: encode by the PHY, decode by the reference)"),
  "C16": dict(
     category="exploration",
     text="Dense deterministic grid (every module class x speedgrade x rate x fine-refresh mode x controller clock) plus Hypothesis-drawn "
